@@ -174,6 +174,10 @@ func Run(c *core.Ctx) int {
 	// because the other parts stay below their observation floors)
 	only := os.Getenv("C20_ONLY")
 	want := func(p string) bool { return only == "" || strings.Contains(only, p) }
+	if want("seq") {
+		// long sequential chains first
+		add(k.seqJobs(), nil)
+	}
 	if want("transparency") {
 		add(k.transparencyJobs())
 	}
@@ -203,6 +207,7 @@ func Run(c *core.Ctx) int {
 	c.Parallel(len(jobs), func(i int) { jobs[i]() })
 	c.Parallel(len(post), func(i int) { post[i]() })
 
+	k.finishSeq()
 	k.finishTransparency()
 	k.finishDamage()
 	k.finishCrash()
@@ -219,10 +224,11 @@ func Run(c *core.Ctx) int {
 		k.extra["parts_below_floor"] = k.short
 	}
 	return c.Finish("fault_enumeration", k.evals, distinct, floor,
-		"distinct = node kinds round-tripped + packages + judged configuration pairs + timestamp cases + (file,offset) truncation points + (file,class) corruption outcomes + effective crash points/fault sequences + concurrent payloads observed",
+		"distinct = end-to-end sequences (build-order pairs, edit kind → build shape pairs, (target, output, hit set) states) + node kinds round-tripped + packages + judged configuration pairs + timestamp cases + (file,offset) truncation points + (file,class) corruption outcomes + effective crash points/fault sequences + concurrent payloads observed",
 		k.extra,
 		[]string{
 			"every cache operation runs in a child process with XDG_CACHE_HOME inside the scratch area",
+			"end-to-end sequences: edits are applied at least 30 ms after the preceding build (file systems stamp files with a clock that may lag time.Now() by a timer tick), so 'edited after the entry was stored' is also what the timestamps say; restoring a file with an OLD modification time is outside the sweep",
 			"the end-to-end builds install the real *cache.BuildCache through the verif hook Session.VerifSetBuildCache (the default session cache is compiled out by disableDefaultCache)",
 			"'exactly the stored content' is judged by a structural fingerprint of everything the serializer stores (AST incl. positions and comments, file set, JS files), not by pointer identity",
 			"strace 'when=N' counts per thread; children run with GOMAXPROCS=1 and the N values that actually injected a fault are recorded",
